@@ -158,12 +158,20 @@ func runC11(s *sim.Sim, variant int) {
 		cs.zoneAware = s.Chance(0.5, "zone-aware")
 		insts := make([]ring.InstanceDesc, n)
 		zset := map[string]bool{}
+		// instances are told apart by identity, not by address: some sets hold pairs of instances behind one address
+		sharedAddr := s.Chance(0.15, "shared-addresses")
+		if sharedAddr && n >= 2 {
+			s.Probe("instances-sharing-an-address")
+		}
 		for i := range insts {
 			z := i % nz
 			if i >= nz {
 				z = s.Choose(nz, "zone-of")
 			}
 			insts[i] = ring.InstanceDesc{Addr: fmt.Sprintf("s%di%d", si, i), Id: fmt.Sprintf("s%di%d", si, i), Zone: fmt.Sprintf("z%d", z)}
+			if sharedAddr {
+				insts[i].Addr = fmt.Sprintf("s%da%d", si, i/2)
+			}
 			zset[insts[i].Zone] = true
 		}
 		for z := range zset {
